@@ -141,9 +141,33 @@ func cmdCheck(eng *Engine, args []string) int {
 		cfg.TimeoutS = 60
 		cfg.All = true
 	}
+	anchors := loadAnchors(verifDir, id)
+	anchored := func(u *Unit) bool {
+		if u.Sym != nil || u.Fn == nil || (u.Own == nil && u.FType == nil) {
+			return false
+		}
+		f := strings.TrimPrefix(eng.fset.Position(u.Fn.Pos()).Filename, eng.repo+"/")
+		for _, a := range anchors {
+			if ok, _ := filepath.Match(a, f); ok {
+				return true
+			}
+		}
+		return false
+	}
+	// an obligation counts for this property if it is tagged with it, or if it is a postcondition / frame / invariant /
+	// termination obligation of a function defined in one of the property's anchor files (properties.jsonl)
+	relevant := func(u *Unit, ob *Obligation) bool {
+		if hasProp(ob.Props, id) {
+			return true
+		}
+		if !anchored(u) {
+			return false
+		}
+		return ob.Kind == "post" || ob.Kind == "frame" || ob.Kind == "termination" || strings.HasPrefix(ob.Kind, "inv-")
+	}
 	var units []*Unit
 	for _, u := range eng.allUnits() {
-		if eng.unitRelevant(u, id) {
+		if eng.unitRelevant(u, id) || anchored(u) {
 			units = append(units, u)
 		}
 	}
@@ -152,7 +176,6 @@ func cmdCheck(eng *Engine, args []string) int {
 			units = append(units, u)
 		}
 	}
-	only := func(ob *Obligation) bool { return ob.Cover || hasProp(ob.Props, id) }
 	var wg sync.WaitGroup
 	sem := make(chan struct{}, 16)
 	for _, u := range units {
@@ -167,7 +190,7 @@ func cmdCheck(eng *Engine, args []string) int {
 				eng.translate(u)
 			}
 			if u.Unsupp == "" && u.SpecFail == "" {
-				solveUnit(u, cfg, only)
+				solveUnit(u, cfg, func(ob *Obligation) bool { return ob.Cover || relevant(u, ob) })
 			}
 		}(u)
 	}
@@ -200,7 +223,7 @@ func cmdCheck(eng *Engine, args []string) int {
 		tagged := 0
 		if u.Script != nil {
 			for _, ob := range u.Script.obs {
-				if !ob.Cover && hasProp(ob.Props, id) {
+				if !ob.Cover && relevant(u, ob) {
 					tagged++
 				}
 			}
@@ -234,7 +257,7 @@ func cmdCheck(eng *Engine, args []string) int {
 				}
 				continue
 			}
-			if !hasProp(ob.Props, id) || ob.WeakOf != "" {
+			if !relevant(u, ob) || ob.WeakOf != "" {
 				if os.Getenv("GOVC_SLOW") != "" && ob.TimeS > 2 {
 					fmt.Fprintf(os.Stderr, "SLOW(other) %.1fs %s %s (%s)\n", ob.TimeS, ob.Result, ob.Name, ob.Solver)
 				}
@@ -255,6 +278,7 @@ func cmdCheck(eng *Engine, args []string) int {
 			}
 			// known finding?
 			matched := false
+			borrowedKnown := false
 			for _, k := range known {
 				byName := k.Obligation != "" && k.Obligation == ob.Name
 				byClass := false
@@ -266,6 +290,11 @@ func cmdCheck(eng *Engine, args []string) int {
 						}
 					}
 				}
+				if k.Status == "open" && k.Property != id && !hasProp(ob.Props, id) && (byName || byClass) {
+					matched = true // a known finding of another property, seen here only because the function is anchored
+					borrowedKnown = true
+					continue
+				}
 				if k.Status == "open" && k.Property == id && (byName || byClass) {
 					matched = true
 					if !seenKnown[k.Text] {
@@ -276,6 +305,9 @@ func cmdCheck(eng *Engine, args []string) int {
 				}
 			}
 			if matched {
+				if borrowedKnown {
+					nOb--
+				}
 				continue
 			}
 			body := fmt.Sprintf("obligation: %s\nkind: %s\nfunction: %s\nsource: %s\ngoal: %s\nresult: %s (%s)\n\nsolver output:\n%s\ncounterexample (entry state of the function, from the solver model):\n%s\n",
@@ -516,6 +548,29 @@ var standingAssumptions = []string{
 	"sequential semantics: sync.Mutex/Once erased, no goroutines",
 	"memory exhaustion and the stack size limit are not modelled",
 	"typed heap: one SMT array per (struct type, field); interior pointers exist only inside the translator",
+}
+
+// loadAnchors: the anchor files of the property (glob patterns relative to the repository), from properties.jsonl
+func loadAnchors(verifDir, id string) []string {
+	data, err := os.ReadFile(filepath.Join(verifDir, "properties.jsonl"))
+	if err != nil {
+		data, err = os.ReadFile("/verif/properties.jsonl")
+		if err != nil {
+			return nil
+		}
+	}
+	for _, l := range strings.Split(string(data), "\n") {
+		var p struct {
+			ID      string `json:"id"`
+			Anchors struct {
+				Files []string `json:"files"`
+			} `json:"anchors"`
+		}
+		if json.Unmarshal([]byte(l), &p) == nil && p.ID == id {
+			return p.Anchors.Files
+		}
+	}
+	return nil
 }
 
 func expectedMin(verifDir, id string) int {
